@@ -46,7 +46,8 @@ TEXTS = {
                      'width == min(W - col, indent + R - col); smart fits implies fast fits (lemma_fits_mono); what fits bounds the first line '
                      'of den (lemma_bound, lemma_fits_bounds_line, structural induction with independent indentations and modes); the normal '
                      'form keeps atoms (family normalize). Bounded stand-in (not counted as proved): decisions recovered through the reference '
-                     'semantics on all classic documents INCLUDING align of <= 5 (6) nodes x widths x fractions x strategies.',
+                     'semantics on all classic documents INCLUDING align of <= 5 (6) nodes x widths x fractions x strategies; a violation needs every '
+                     'assignment matching the output to overflow. Two known findings (re-decided inner group under align; flat across a hard line).',
                 note=_ENC + 'same assumptions as C04; float*int and round() uninterpreted; align (contextual documents) is outside the proved '
                             'statement: the predicate and the engine evaluate the function at different columns.'),
     'C06': dict(category='other', engine='pyvc+bounded', technique=_PYVC + '; ' + _BOUNDED,
